@@ -177,7 +177,7 @@ MUTANTS += [
                 "'%s' is not a valid points value for multi-events\""""),
  dict(id='c12-too-slow', props=['C12'], file=U, old="            if velocity < 0.5:", new="            if velocity < 0.05:"),
  dict(id='c12-unfix-60', props=['C12'], file=U, old="        if ((minutes or hours) and seconds >= 60) or (hours and minutes >= 60):", new="        if False:"),
- dict(id='c12-record-ulpc', props=['C12'], file=U, old="            if record and distance>record*ulpc:", new="            if record and distance>record*ulpc*ulpc:"),
+ dict(id='c12-record-ulpc', props=['C12'], file=U, old="            if record and round(distance, 2)>record*ulpc:", new="            if record and round(distance, 2)>record*ulpc*ulpc:"),
 ]
 
 HJ = 'athlib/highjump.py'
@@ -300,7 +300,7 @@ MUTANTS += [
 MUTANTS += [
  # ---- C19 -----------------------------------------------------------------------
  dict(id='c19-key-json-only', props=['C19'], file=U, old="    t = (json_file,schema_file)\n", new="    t = (json_file,)\n"),
- dict(id='c19-cache-not-v', props=['C19'], file=U, old="        c.pop(next(it))\n    c[t] = v\n    return v", new="        c.pop(next(it))\n    c[t] = not v if len(c) > 15 else v\n    return v"),
+ dict(id='c19-cache-not-v', props=['C19'], file=U, old="        c.pop(k, None)\n    c[t] = v\n    return v", new="        c.pop(k, None)\n    c[t] = not v if len(c) > 15 else v\n    return v"),
  dict(id='c19-evict-wrong', props=['C19'], file=U, old="    c[t] = v\n    return v", new="    c[t] = v\n    if len(c) >= maxlen: c[next(iter(c))] = v\n    return v"),
  dict(id='c19-unfix', props=['C19'], file=U, old="    if t in _schema_valid_cache and (_schema_valid_cache[t] or not expect_failure):", new="    if t in _schema_valid_cache:"),
  dict(id='c19-validator-not-in-key', props=['C19'], file=U, old="    t = (schema_file,validator)\n", new="    t = (schema_file,)\n"),
